@@ -1108,6 +1108,10 @@ def corr_subspace_history(ctx, drv, seed, mode):
         pm, rm = obj.project(buf), obj.reflect(buf)
         toks.extend(['apply', str(i), B.cline(q_at_construction)])
         checks.append(('apply', q_at_construction, buf.copy(), pm, rm, obj.Q.copy()))
+        om = obj.oProject(buf)                   # oQ = eye - Q as computed at construction
+        oq0 = np.eye(q_at_construction.shape[0]) - q_at_construction
+        toks.extend(['apply', str(i), B.cline(oq0)])
+        checks.append(('oapply', oq0, buf.copy(), om))
 
     refill(0, buf_a, seq_a[0])
     refill(1, buf_b, seq_b[0])
@@ -1119,9 +1123,9 @@ def corr_subspace_history(ctx, drv, seed, mode):
     do_chord2(0, 0, buf_a, buf_a)
     obj = proj.Projection(buf_a)
     q0 = obj.Q.copy()
+    refill(0, buf_a, seq_a[2])                   # the basis array is reused right after the object was built
     refill(2, buf_m, seq_m[0])
     do_apply(2, buf_m, obj, q0)
-    refill(0, buf_a, seq_a[2])                   # the basis array is reused after the object was built
     refill(1, buf_b, seq_b[1])
     do_apply(0, buf_a, obj, q0)                  # ... and handed to the object's own methods
     refill(2, buf_m, seq_m[1])
@@ -1179,6 +1183,10 @@ def compare_subspace(ctx, checks, outs, heap, heap_s, case):
             ok2, w2 = B.within(rm, B.parse_c(rf_s, x.shape), (np.eye(m) + 2 * np.abs(q0)) @ np.abs(x))
             ok_all &= ctx.corr(name + '.Projection.project/reflect', case, 'agree' if ok1 and ok2 else 'call %d differs: %s %s' % (idx, w1, w2), 'agree', key=key)
             ctx.branch('corr-R16:projection-object')
+        elif kind == 'oapply':
+            _, oq0, x, om = chk
+            ok1, w1 = B.within(om, B.parse_c(out.split('|')[0], x.shape), np.abs(oq0) @ np.abs(x))
+            ok_all &= ctx.corr(name + '.Projection.oProject', case, 'agree' if ok1 else 'call %d differs: %s' % (idx, w1), 'agree', key=key)
     return ok_all
 
 
@@ -1439,7 +1447,127 @@ def corr_r15_values(ctx, drv, quick):
             ctx.branch('corr-R15:conversions')
 
 
-CORR_BRANCHES = ['corr-R16:buffer-refilled-in-place', 'corr-R16:same-object-both-roles', 'corr-R16:projection-object',
+def corr_kernel_histories(ctx, drv, quick):
+    """entry points whose model takes the kernel results only (calc_chordal_distance, calc_principal_angles,
+    calc_whitening_matrix, peig / leig, least_right_singular_vectors, get_principal_component_matrix): four
+    calls on ONE array per parameter refilled in place (the last two with the same array in both roles where
+    there are two).  Every call must make exactly the kernel calls of a fresh call, on the contents the
+    array has at call time, and return the model's value for what the kernels returned."""
+    B = _B()
+    _, met, misc, _ = _impl()
+    E = _entries()
+    expect = {'calc_chordal_distance': ['qr', 'qr'], 'calc_principal_angles': ['qr', 'qr', 'svd'],
+              'calc_whitening_matrix': ['eig', 'qr'], 'peig': ['eig', 'argsort'], 'leig': ['eig', 'argsort'],
+              'least_right_singular_vectors': ['svd'], 'get_principal_component_matrix': ['svd']}
+    lines, items = [], []
+    for rep in range(1 if quick else 20):
+        for e_i, entry in enumerate(expect):
+            fill, call, _, pair = E[entry]
+            seed = 1000 * ctx.seed + 50 * rep + e_i
+            rs0 = _rs(seed, 17)
+            cplx = bool((seed + rep) % 2)
+            m = int(rs0.randint(2, 7))
+            dims = {'m': m, 'k': int(rs0.randint(1, m)) if entry.startswith('calc_c') or entry.startswith('calc_p') else int(rs0.randint(2, 7))}
+            extra = {'n': int(rs0.randint(1, m + 1))} if entry in ('peig', 'leig') else {}
+            if entry == 'least_right_singular_vectors':
+                extra = {'n': int(rs0.randint(0, dims['k'] + 1))}
+            if entry == 'get_principal_component_matrix':
+                extra = {'k': int(rs0.randint(1, min(dims['m'], dims['k']) + 1))}
+            bufs = None
+            for k in range(4):
+                cont = fill(_rs(seed, k, 19), dims, cplx, extra)
+                same_obj = pair is not None and k >= 2
+                if same_obj:
+                    cont[pair[1]] = cont[pair[0]]
+                if bufs is None:
+                    bufs = [np.zeros(np.shape(c), dtype=np.asarray(c).dtype) for c in cont]
+                for b, c in zip(bufs, cont):
+                    b[...] = c
+                args = list(bufs)
+                if same_obj:
+                    args[pair[1]] = bufs[pair[0]]
+                with B.Tap() as tap:
+                    r = call(args, extra)
+                names = [c[0] for c in tap.log]
+                case = {'entry': entry, 'seed': seed, 'call': k + 1, 'dims': dims, 'cplx': cplx, 'same-object': same_obj}
+                key = ('r16kern', entry, seed, k)
+                ctx.branch('corr-R16:kernel-history')
+                if same_obj:
+                    ctx.branch('corr-R16:same-object-both-roles')
+                if not ctx.corr('R16.history:%s.kernel-calls' % entry, case, 'call %d: %r' % (k + 1, names),
+                                'call %d: %r' % (k + 1, expect[entry]), key=key + ('names',)):
+                    continue
+                # the first kernel call(s) read the contents the arrays have NOW
+                if entry in ('calc_chordal_distance', 'calc_principal_angles'):
+                    ok = np.array_equal(tap.log[0][1][0], cont[0]) and np.array_equal(tap.log[1][1][0], cont[1])
+                else:
+                    ok = np.array_equal(tap.log[0][1][0], cont[0])
+                ctx.corr('R16.history:%s.kernel-arguments' % entry, case, 'contents at call time' if ok else 'call %d: other' % (k + 1),
+                         'contents at call time', key=key + ('args',))
+                a = cont[0]
+                if entry == 'calc_chordal_distance':
+                    q1, q2 = tap.log[0][3][0], tap.log[1][3][0]
+                    lines.append('chord %d %d %d %s %s' % (a.shape[0], q1.shape[1], q2.shape[1], B.cline(q1), B.cline(q2)))
+                    items.append((entry, case, key, float(r), a.shape[0]))
+                elif entry == 'calc_principal_angles':
+                    lines.append('angles %s' % B.fline(tap.log[2][3][1]))
+                    items.append((entry, case, key, np.asarray(r, dtype=float), None))
+                elif entry == 'calc_whitening_matrix':
+                    lam, v = tap.log[0][3][0], tap.log[1][3][0]
+                    lines.append('whiten %d %s %s' % (a.shape[0], B.cline(lam), B.cline(v)))
+                    items.append((entry, case, key, r, (lam, v)))
+                elif entry in ('peig', 'leig'):
+                    perm = tap.log[1][3].tolist()
+                    lines.append('%s %d %d %s' % (entry, a.shape[1], extra['n'], ','.join(map(str, perm))))
+                    items.append((entry, case, key, r, tap.log[0][3]))
+                elif entry == 'least_right_singular_vectors':
+                    lines.append('lrsv %d %d %s' % (a.shape[1], extra['n'], B.fline(tap.log[0][3][1])))
+                    items.append((entry, case, key, r, tap.log[0][3]))
+                else:
+                    u, sv, vh = tap.log[0][3]
+                    lines.append('gpcm %d %d %d %s %s %s' % (a.shape[0], a.shape[1], extra['k'], B.cline(u), B.cline(sv), B.cline(vh)))
+                    items.append((entry, case, key, r, (u, sv, vh)))
+    out = drv.ask(lines)
+    for (entry, case, key, r, aux), rep in zip(items, out):
+        name = 'R16.history:' + entry
+        if entry == 'calc_chordal_distance':
+            md = core.s2f(rep.split('|')[0])
+            ctx.corr(name, case, 'agree' if abs(md - r) <= 1e-9 * max(1.0, aux) else 'differs: impl %r model %r' % (r, md), 'agree', key=key)
+        elif entry == 'calc_principal_angles':
+            mang = B.parse_f(rep.split('|')[0])
+            ok = mang.shape == r.shape and bool(np.all(np.abs(mang - r) <= 1e-12))
+            ctx.corr(name, case, 'agree' if ok else 'differs: impl %r model %r' % (r.tolist(), mang.tolist()), 'agree', key=key)
+        elif entry == 'calc_whitening_matrix':
+            lam, v = aux
+            n = v.shape[0]
+            ok, why = B.within(r, B.parse_c(rep, (n, n)), np.abs(v) @ np.diag(1 / np.sqrt(np.abs(lam))), rtol=1e-12)
+            ctx.corr(name, case, 'agree' if ok else 'differs: ' + why, 'agree', key=key)
+        elif entry in ('peig', 'leig'):
+            dvals, vmat = aux
+            idx = [int(t) for t in rep.split(',')] if rep and not rep.startswith('error') else []
+            ok = np.array_equal(r[0], vmat[:, idx]) and np.array_equal(r[1], dvals[idx])
+            ctx.corr(name, case, 'V[:,idx],D[idx] idx=%s' % idx if ok else 'differs', 'V[:,idx],D[idx] idx=%s' % idx, key=key)
+        elif entry == 'least_right_singular_vectors':
+            i0_s, i1_s, s_s = rep.split('|')
+            i0 = [int(t) for t in i0_s.split(',')] if i0_s else []
+            i1 = [int(t) for t in i1_s.split(',')] if i1_s else []
+            vfull = H(aux[2])
+            ok = (not s_s.startswith('error') and np.array_equal(r[0], vfull[:, i0]) and np.array_equal(r[1], vfull[:, i1])
+                  and np.array_equal(np.asarray(r[2]), B.parse_f(s_s)))
+            ctx.corr(name, case, 'V[:,idx0],V[:,idx1],S[idx1]' if ok else 'differs', 'V[:,idx0],V[:,idx1],S[idx1]', key=key)
+        else:
+            u, sv, vh = aux
+            kk = case and np.shape(r)[1]
+            if rep.startswith('error') or rep == 'out-of-model':
+                ctx.corr(name, case, 'value', rep, key=key)
+                continue
+            mo = B.parse_c(rep, np.shape(r))
+            bound = (np.abs(u[:, :sv.size]) * sv) @ np.abs(vh[:sv.size, :kk])
+            ok, why = B.within(r, mo, bound + 1e-300)
+            ctx.corr(name, case, 'agree' if ok else 'differs: ' + why, 'agree', key=key)
+
+
+CORR_BRANCHES = ['corr-R16:kernel-history', 'corr-R16:buffer-refilled-in-place', 'corr-R16:same-object-both-roles', 'corr-R16:projection-object',
                  'corr-R16:history:subspace', 'corr-R16:history:uisd', 'corr-R16:history:gmd', 'corr-R16:history:conv',
                  'corr-R15:close-contents', 'corr-R15:tiny-magnitude', 'corr-R15:angles', 'corr-R15:selectors', 'corr-R15:conversions']
 
@@ -1447,4 +1575,5 @@ CORR_BRANCHES = ['corr-R16:buffer-refilled-in-place', 'corr-R16:same-object-both
 def correspondence(ctx, quick):
     drv = core.Driver(DRIVER)
     corr_histories(ctx, drv, quick)
+    corr_kernel_histories(ctx, drv, quick)
     corr_r15_values(ctx, drv, quick)
